@@ -343,6 +343,46 @@ def gen_values(rng, E, gen):
     return vals
 
 
+TINY = [1e-9, 3e-9, 5e-10, 2e-9, 7e-9, 1e-8, 4e-8, 1e-7, 2.5e-8]
+NEAR_REL = [1e-6, 5e-6, 1e-5, -3e-6, 2e-6, -1e-5]
+
+
+def gen_param_values(rng, E, allow_tiny=True):
+    """per-member values of one parameter.  Returns (values, tiny).  Besides the ordinary stream
+    (dyadic values, coincidences, 0/1): (i) tiny magnitudes 5e-10..1e-7 that differ between
+    members (all within an absolute 1e-8-ish of each other), (ii) values that differ by a relative
+    1e-6..1e-5 or an absolute 1e-8 around an ordinary magnitude, (iii) exact coincidences for some
+    members and near-coincidences for others in the same instance.  A classification that merges
+    'almost equal' values (np.allclose, rounding, ...) must not go unnoticed."""
+    r = rng.random()
+    if E == 1 or r < 0.5:
+        return gen_values(rng, E, lambda: dy(rng)), False
+    if allow_tiny and r < 0.7:
+        pool = rng.sample(TINY, min(E, len(TINY)))
+        vals = [pool[m % len(pool)] for m in range(E)]
+        if E > 2 and rng.random() < 0.5:  # (iii) an exact coincidence among the tiny values
+            a, b = rng.sample(range(E), 2)
+            vals[b] = vals[a]
+        if rng.random() < 0.3:
+            vals[rng.randrange(E)] = 0.0
+        if all(v == vals[0] for v in vals):
+            vals[-1] = vals[0] * 3
+        return vals, True
+    base = rng.choice([dy(rng), 2.0, 1.0, 0.5, -1.5])
+    vals = []
+    for m in range(E):
+        q = rng.random()
+        if m == 0 or q < 0.3:
+            vals.append(base)  # exact coincidence with member 0
+        elif q < 0.8:
+            vals.append(base * (1.0 + rng.choice(NEAR_REL)))
+        else:
+            vals.append(base + rng.choice([1e-8, -1e-8, 5e-9]))
+    if all(v == vals[0] for v in vals):
+        vals[-1] = base * (1.0 + 1e-5)
+    return vals, False
+
+
 def gen_eq(rng, inst, nonlinear, must=None, init=False):
     nv = inst["ns"] + inst["na"] + inst["nc"]
     pool = [["v", j] for j in range(nv)] + [["d", s] for s in range(inst["ns"])]
@@ -363,7 +403,12 @@ def gen_eq(rng, inst, nonlinear, must=None, init=False):
                 facs.append(g)
         elif nonlinear and r < 0.65 and f[0] in ("v", "d"):
             facs.append(rng.choice([["v", j] for j in range(nv)] + [f]))
-        terms.append([dy(rng), facs])
+        coef = dy(rng)
+        for g in facs:
+            if g[0] == "p" and g[1] in (inst.get("ptiny") or []):
+                # a tiny parameter is paired with a large coefficient: the effect on the row is O(0.1 .. 10)
+                coef *= 2.0 ** 27
+        terms.append([coef, facs])
     const = rng.choice([0.0, 0.0, dy(rng), 1.0])
     return {"c": const, "t": terms}
 
@@ -397,8 +442,14 @@ def gen_instance(rng, big=False, kind=None):
     inst = dict(kind=kind, ns=ns, na=na, nc=nc, nci=nci, npar=npar, E=E, ts=ts, theta=theta)
     vs = var_names(inst)
     inst["nom"] = {v: rng.choice(NOMS) for v in vs}
-    inst["pvals"] = [list(r) for r in zip(*[gen_values(rng, E, lambda: dy(rng)) for _ in range(npar)])] \
-        if npar else [[] for _ in range(E)]
+    cols, ptiny = [], []
+    for j in range(npar):
+        vals, tiny = gen_param_values(rng, E, allow_tiny=(kind != "solve"))
+        cols.append(vals)
+        if tiny:
+            ptiny.append(j)
+    inst["pvals"] = [list(r) for r in zip(*cols)] if npar else [[] for _ in range(E)]
+    inst["ptiny"] = ptiny
     # constant inputs: own time stamps (a superset window of the horizon, or exactly the grid), modes
     modes = {}
     cin = [[None] * nci for _ in range(E)]
